@@ -334,7 +334,12 @@ def shrink(cfg, exe, work, tier, line, clause, kid, rounds=25):
     return cur
 
 
-def analyse(cfg, cases, order, verdicts, known_ids):
+def clause_key(clause):
+    """first word of a spec clause, without a trailing colon: 'table: row 3 differs' -> 'table'"""
+    return clause.split(" ")[0].rstrip(":")
+
+
+def analyse(cfg, cases, order, verdicts, known_ids, known_clauses=None):
     """returns dict with lists of ids: fails (unknown), known (id->list), diffs, bad; tag counts"""
     r = {"fails": [], "known": {}, "diffs": [], "bad": [], "tags": {}, "nontrivial": set(), "ok": 0, "missing": []}
     for cid in order:
@@ -354,16 +359,20 @@ def analyse(cfg, cases, order, verdicts, known_ids):
         failed = s.startswith("S=FAIL")
         kid = k[2:] if k.startswith("K=") else "-"
         if failed:
-            if kid != "-" and kid in known_ids:
+            # a recorded finding suppresses a failure only inside its region (K=<id> from the driver)
+            # AND only for the clause(s) the finding is about; anything else is a new violation
+            allowed = (known_clauses or {}).get(kid)
+            if kid != "-" and kid in known_ids and (allowed is None or clause_key(s[7:]) in allowed):
                 r["known"].setdefault(kid, []).append((cid, s[7:]))
+                # the model must still agree with the implementation inside the region
+                if m.startswith("M=DIFF"):
+                    r["diffs"].append((cid, m[7:]))
             else:
                 r["fails"].append((cid, s[7:], kid))
         elif m.startswith("M=DIFF"):
             r["diffs"].append((cid, m[7:]))
         else:
             r["ok"] += 1
-        if failed and m.startswith("M=DIFF"):
-            pass
     return r
 
 
@@ -390,6 +399,7 @@ def main():
     notes, violations, known_lines = [], [], []
     known = load_known(pid)
     known_ids = {k["id"] for k in known if k.get("status") == "known"}
+    known_clauses = {k["id"]: set(k["clauses"]) for k in known if k.get("status") == "known" and k.get("clauses")}
 
     # ---- replay mode ---------------------------------------------------------------------
     replay_src = None
@@ -462,7 +472,7 @@ def main():
         if rc != 0:
             return None, f"driver exited {rc}: {err[-3000:]}"
         cases, order, dist, verdicts = parse_results(cf, vf)
-        return (cases, order, dist, verdicts, analyse(cfg, cases, order, verdicts, known_ids)), None
+        return (cases, order, dist, verdicts, analyse(cfg, cases, order, verdicts, known_ids, known_clauses)), None
 
     # 4a. known-finding witnesses + corpus first
     corpus_lines = []
